@@ -22,7 +22,8 @@ one() {
   fi
   RES=""
   for P in $PROPS; do
-    VERIF_GEN=/tmp/gen_rg_$tag ./check $P --repo $WT >/dev/null 2>&1; RC=$?
+    SKIP=""; [ "$kind" = seed ] && SKIP="s_$(echo $id | tr -c 'A-Za-z0-9\n' '_')"     # a seed is never judged by its own demonstration scenario
+    VERIF_SKIP_DEMO=$SKIP VERIF_GEN=/tmp/gen_rg_$tag ./check $P --repo $WT >/dev/null 2>&1; RC=$?
     [ $RC -eq 1 ] && RES="$RES $P:VIOLATION"; [ $RC -eq 2 ] && RES="$RES $P:UNDECIDED"
   done
   echo "RESULT $kind $id:${RES:- all OK}$EXP"
